@@ -34,16 +34,33 @@ def check(run):
         elif ev["ev"] == "vocab":
             key = "view:vocab:%s" % "+".join(b["why"])
             what = "struct %s does not carry the vocabulary rows of Vocab.tla: %s" % (ev["g"], b["why"])
+        elif b["why"] and b["why"][0].startswith("note:"):
+            run.note("view:dyn:%s:%s:%s" % (ev["fn"], ev["from"], b["why"][0][5:]), "%s(%s %s): %s" % (ev["fn"], ev["form"], ev["from"],
+                     "refused although %s's rows are a prefix of %s's in Vocab.tla" % (ev["fn"][2:], ev["from"]) if ev["outcome"] == "refused" else ev["outcome"]))
+            continue
         else:
             key = "view:dyn:%s:%s->%s:%s" % (ev["fn"], ev["from"], ev.get("to") or "?", "+".join(b["why"]))
             what = "%s(%s %s) -> %s %s %s" % (ev["fn"], ev["form"], ev["from"], ev["outcome"], ev.get("bad", [])[:4], ev.get("msg", "")[:120].replace("\n", " "))
         run.observe(key, what, dict(event=ev))
+    # growth leg (observations only): the callback helpers over lists, Destructure.tla
+    run.tlc_model("DestructureModel", "destr_model", workers=8, timeout=600)
+    run.tlc_eval("DestructureGen", "destr_gen", timeout=300)
+    run.vh(["destr-run", run.spec_path("destr_cases.ndjson"), run.spec_path("destr_trace.ndjson")])
+    dv = run.tlc_eval("DestructureTrace", "destr_trace", timeout=600).json_lines()[-1]
+    dev = vlib.read_ndjson(run.spec_path("destr_trace.ndjson"))
+    if dv["consumed"] != len(dev) or len(dev) < 1000:
+        raise vlib.Infra("Destructure trace not fully consumed: %s of %d" % (dv["consumed"], len(dev)))
+    for b in dv["bad"]:
+        e = dev[b["l"] - 1]
+        run.note("walk:%s:%s" % (e["h"], "+".join(b["why"])), "%s over %s (callback fails at call %s): calls=%s err=%s %s differs from Destructure.tla"
+                 % (e["h"], json.dumps(e["item"])[:160], e["failAt"], e["calls"], e["err"], e["panic"][:80]))
+    run.cov["destructure_walks_judged"] = len(dev)
     for s in f["sites"][::12]:
         run.sample(s)
     run.sample(dyn[0])
     run.cov.update(evaluations=len(events), distinct_nontrivial=len(f["sites"]) + len(dyn), exhaustive=True, traces_validated_against_impl=len(dyn),
                    rule="static: every (*T)(unsafe.Pointer(x)) site found by go/types in the current tree (%d) judged by SiteWhy, and the jsonld "
-                        "terms/kinds of all 14 structs against Vocab!Props; dynamic: 14 To* helpers x 14 struct types x {pointer, value} executed in "
+                        "terms/kinds of all 14 structs against Vocab!Props; dynamic: 14 To* and 14 On* helpers x 14 struct types x {pointer, value} executed in "
                         "child processes built with -d=checkptr%s: every field read through the view, every field written through a pointer view"
                         % (len(f["sites"]), " and -race" if run.tier == "thorough" else ""))
     run.assumptions += ["layouts are those of gc/amd64", "names of non-shared tail fields are not compared"]
